@@ -80,6 +80,22 @@ def depth(tx):
     return 1 + max(depth(t) for t in tx["of"])
 
 
+PICKLE_MODULE = "xv_generated_types"
+
+
+def importable(c):
+    """make a generated class importable (pickle stores classes by module + name)"""
+    import sys, types
+    mod = sys.modules.get(PICKLE_MODULE)
+    if mod is None:
+        mod = types.ModuleType(PICKLE_MODULE)
+        sys.modules[PICKLE_MODULE] = mod
+    c.__module__ = PICKLE_MODULE
+    c.__qualname__ = c.__name__
+    setattr(mod, c.__name__, c)
+    return c
+
+
 class Namespace:
     """builds real xobjects classes for type expressions; one class per distinct TX, uniquely named"""
 
@@ -122,6 +138,8 @@ class Namespace:
             c = type(xo.UnionRef)(f"{self.prefix}U{self.fresh()}", (xo.UnionRef,), {"_reftypes": members})
         else:
             raise C.MachineryError(f"bad TX {tx}")
+        if kind in ("struct", "arr", "uref"):
+            importable(c)
         self.cache[k] = c
         return c
 
@@ -251,6 +269,11 @@ def read_value(ns, tx, x):
     if k == "struct":
         return [read_value(ns, f, getattr(x, ns.fname(i))) for i, f in enumerate(tx["f"])]
     if k == "arr":
+        if isinstance(x, np.ndarray):          # hybrid attributes expose numeric arrays as ndarrays
+            dt = np.dtype(tx["it"]["np"].lower())
+            if x.dtype != dt:
+                raise TypeError("ndarray attribute of another dtype")
+            return {"sh": [int(d) for d in x.shape], "it": [list(x[idx].tobytes()) for idx in np.ndindex(*x.shape)]}
         sh = [int(d) for d in x._shape]
         return {"sh": sh, "it": [read_value(ns, tx["it"], x[idx]) for idx in np.ndindex(*sh)]}
     if x is None:
